@@ -971,6 +971,7 @@ func (dsc *dataStoreCommand) persist(keyName string) (output respValue) {
 		return
 	}
 	sk.expiresAt = maxTime
+	dsc.setDirty()
 	output.data = respInt(1)
 	return
 }
